@@ -55,6 +55,62 @@ func (s slowCloser) Close() error {
 	return s.pipeEnd.Close()
 }
 
+// lateWriter: a peer that does not drain — a Write blocks until the transport is closed and its failure is reported a little later
+// (layered transports unwind that way).
+type lateWriter struct {
+	*pipeEnd
+	d time.Duration
+}
+
+func (l lateWriter) Write(p []byte) (int, error) {
+	<-l.pipeEnd.closedCh
+	time.Sleep(l.d)
+	return 0, io.ErrClosedPipe
+}
+
+// c20CancelledCloseRead: CloseRead under a context the caller cancels later. The peer sends a data message, the CloseRead
+// goroutine starts the policy-violation close and is stuck writing its Close frame (the peer does not drain); the caller cancels
+// its context and calls CloseNow / Close. A done CloseRead context says nothing about where that goroutine is: the call must
+// still wait for it.
+func c20CancelledCloseRead(client bool, then string) (string, string) {
+	before, _ := libGoroutines()
+	a, b := newPipe()
+	c := websocket.VerifNewConn(lateWriter{a, 350 * time.Millisecond}, client, websocket.VerifCopts{}, 0)
+	peer := newRawPeer(b, !client)
+	defer b.Close()
+	ctx, cancel := context.WithCancel(context.Background())
+	crCtx := c.CloseRead(ctx)
+	peer.writeFrame(RawFrame{Fin: true, Op: 1, Payload: []byte("unexpected data message")})
+	time.Sleep(80 * time.Millisecond) // the goroutine is inside the write of its Close frame now
+	cancel()
+	time.Sleep(20 * time.Millisecond)
+	done := make(chan struct{})
+	go func() {
+		defer close(done)
+		if then == "close" {
+			c.Close(websocket.StatusNormalClosure, "")
+		} else {
+			c.CloseNow()
+		}
+	}()
+	select {
+	case <-done:
+	case <-time.After(25 * time.Second):
+		return "final-call-hangs", fmt.Sprintf("client=%v: %s after a cancelled CloseRead context did not return", client, then)
+	}
+	time.Sleep(10 * time.Millisecond)
+	after, which := libGoroutines()
+	select {
+	case <-crCtx.Done():
+	default:
+		return "closeread-ctx-not-cancelled", "the context returned by CloseRead is not done after the connection was closed"
+	}
+	if after > before {
+		return "goroutine-outlives-final-call", fmt.Sprintf("client=%v: %d library goroutine(s) still alive right after %s returned (CloseRead under a context the caller had cancelled): %s", client, after-before, then, which)
+	}
+	return "", ""
+}
+
 // libGoroutines counts goroutines started by the library that are still alive.
 func libGoroutines() (int, string) {
 	buf := make([]byte, 1<<20)
@@ -304,6 +360,17 @@ func runC20(ctx *runCtx) {
 			rep.eval("replay")
 		}
 		return
+	}
+	for _, client := range []bool{false, true} {
+		for _, then := range []string{"closenow", "close"} {
+			client, then := client, then
+			sh, w := guarded(60*time.Second, func() (string, string) { return c20CancelledCloseRead(client, then) })
+			rep.eval(fmt.Sprintf("cancelled-closeread-ctx/%v/%s", client, then))
+			rep.count("scenario:cancelled-closeread-ctx")
+			if sh != "" {
+				rep.violate(Violation{Kind: "property", Shape: sh, What: w, Replay: map[string]interface{}{"scenario": "cancelled-closeread-ctx", "client": client, "then": then}})
+			}
+		}
 	}
 	rng := newRng(ctx.seed, "c20")
 	n := 220
